@@ -12,8 +12,11 @@ META = dict(
            "with the fsolve contract (C22) a converged load step therefore satisfies them within the tolerance; (b) jac is the derivative of fun, per "
            "basis direction; (c) truncation / continuation behaviour is explored in C21 (only converged load steps are returned, with a warning); "
            "(d) equivariance: for the rigidly moved problem (support pose, load, reference configuration and state moved by a symbolic rigid motion) the "
-           "residual is the correspondingly rotated residual, so equilibria map to equilibria.  Outside: that Newton / Riks FIND an equilibrium, Riks' "
-           "arc-length control, contact branches of min(la_N, g_N).",
+           "residual is the correspondingly rotated residual, so equilibria map to equilibria; (e) Riks.R rows on a point mass with contact, "
+           "compliance spring and distance constraint (incl. W_N la_N, min(la_N, g_N), arc-length row); (f) bookkeeping of the real Newton.solve (3 load "
+           "steps) and Riks.solve (4 points) with fsolve replaced by its contract stub returning SYMBOLIC vectors: every returned point is exactly the "
+           "result of the nonlinear solve for its own load level and every load step is solved.  Outside: that Newton / Riks FIND an equilibrium, the "
+           "quality of Riks' arc-length control.",
     assumptions=["quaternions nonzero"],
     trusted_base=["fsolve contract proved in C22 (composition argued, not mechanised)"],
 )
@@ -111,6 +114,120 @@ def rows(h, which="rb", solver="Newton", seed=0):
     h.eq(f"{solver}: quaternion rows = g_S", F[sf[2]:sf[3]], sysm.g_S(t, q))
 
 
+class _Res:
+    pass
+
+
+def _fsolve_stub(h, calls, make_x):
+    """contract stub for cardillo.math.fsolve (proved in C22): returns SOME vector flagged converged; the k-th call returns make_x(k, x0)"""
+    def stub(fun, x0, jac=None, fun_args=(), jac_args=(), options=None, **kw):
+        k = len(calls)
+        r = _Res()
+        r.x = make_x(k, x0)
+        r.success, r.nit, r.error, r.fun, r.njev, r.nfev = True, 2, 0.0, None, 1, 1
+        calls.append(dict(x0=np.array(x0, copy=True), fun_args=tuple(fun_args), x=np.array(r.x, copy=True)))
+        return r
+    return stub
+
+
+def _contact_problem(h):
+    """point mass over a plane (contact), compliance-form spring to the origin, distance constraint to an anchor, load-proportional force"""
+    from cardillo import System
+    from cardillo.discrete import PointMass, Frame
+    from cardillo.forces import Force
+    from cardillo.contacts import Sphere2Plane
+    from cardillo.interactions import TwoPointInteraction
+    from cardillo.force_laws import Spring
+    import cardillo.constraints as C
+    pm = PointMass(1.0, q0=np.array([0.5, 0.25, 0.25]), name="pm")
+    plane, anchor = Frame(name="plane"), Frame(r_OP=np.array([-0.5, 0.0, 1.0]), name="anchor")
+    sysm = System()
+    sp = Spring(TwoPointInteraction(sysm.origin, pm, name="tp"), 4.0, l_ref=0.5, compliance_form=True, name="spring")
+    sysm.add(pm, plane, anchor, Sphere2Plane(plane, pm, mu=0.0, r=0.25, name="contact"), C.FixedDistance(anchor, pm), sp,
+             Force(lambda t: t * np.array([0.5, -0.25, -1.0]), pm, name="load"))
+    lib.assemble(sysm)
+    return sysm
+
+
+def riks_rows(h, seed=0):
+    """every row of the arc-length solver's residual is the static equilibrium incl. contact forces / c / g / g_S / min(la_N, g_N) / arc-length equation"""
+    import cardillo.solver.statics as st
+    sysm = _contact_problem(h)
+    real = st.fsolve
+    st.fsolve = _fsolve_stub(h, [], lambda k, x0: np.asarray(x0, dtype=float) + 0.125)
+    try:
+        with h.capture():
+            S = st.Riks(sysm, la_arc0=0.125)
+    finally:
+        st.fsolve = real
+    q, lc, lg, lN, t = h.vec("q", sysm.nq), h.vec("lc", sysm.nla_c), h.vec("lg", sysm.nla_g), h.vec("lN", sysm.nla_N), h.real("load")
+    x = np.concatenate([q, lc, lg, lN, [t]])
+    u0 = np.zeros(sysm.nu)
+    with h.capture():
+        R = S.R(x)
+    sr = S.split_residual
+    dense = lambda A: np.asarray(A.toarray())
+    eqm = sysm.h(t, q, u0) + dense(sysm.W_c(t, q)) @ lc + dense(sysm.W_g(t, q)) @ lg + dense(sysm.W_N(t, q)) @ lN
+    h.eq("Riks: equilibrium rows = h + W_c la_c + W_g la_g + W_N la_N", R[:sr[0]], eqm)
+    h.eq("Riks: compliance rows = c", R[sr[0]:sr[1]], sysm.c(t, q, u0, lc))
+    h.eq("Riks: constraint rows = g", R[sr[1]:sr[2]], np.atleast_1d(sysm.g(t, q)))
+    h.eq("Riks: quaternion rows = g_S", R[sr[2]:sr[3]], sysm.g_S(t, q))
+    gN = sysm.g_N(t, q)
+    for i in range(sysm.nla_N):
+        r = R[sr[3] + i]
+        if h.sym:
+            import z3
+            from symx.core import B
+            t_ = lambda b: b.t if isinstance(b, B) else z3.BoolVal(bool(b))
+            h.holds(f"Riks: Signorini row {i} = min(la_N, g_N)", z3.And(t_(r <= lN[i]), t_(r <= gN[i]), z3.Or(t_(r == lN[i]), t_(r == gN[i]))))
+        else:
+            h.holds(f"Riks: Signorini row {i} = min(la_N, g_N)", abs(r - min(lN[i], gN[i])) < 1e-12)
+    dq = q - S.xk[:sysm.nq]
+    h.eq("Riks: arc-length row = |q - q_k|^2 - ds^2", R[-1], dq @ dq - S.ds ** 2)
+
+
+def stored_points(h, solver="Newton", seed=0):
+    """the real solve() with fsolve replaced by its contract stub (arbitrary converged result per call): every returned point is exactly the result
+    of the nonlinear solve for ITS load level (not a predictor, not an initial guess, not overwritten later), and every load step was solved"""
+    import cardillo.solver.statics as st
+    from cardillo.solver import SolverOptions
+    sysm = _contact_problem(h)
+    calls = []
+    real = st.fsolve
+    nx = sysm.nq + sysm.nla_c + sysm.nla_g + sysm.nla_N
+    if solver == "Newton":
+        make_x = lambda k, x0: h.vec(f"x{k}_", nx)
+    else:
+        # arc-length parameter (last entry) concrete so that the loop's exit test is decided: 3 points inside the span, the 4th outside
+        las = [0.125, 0.25, 0.5, 0.875, 1.25]
+        make_x = lambda k, x0: (np.asarray(x0, dtype=float) + 0.125 if k == 0 else np.concatenate([h.vec(f"x{k}_", nx), [las[min(k, len(las) - 1)]]]))
+    st.fsolve = _fsolve_stub(h, calls, make_x)
+    try:
+        with h.capture():
+            if solver == "Newton":
+                S = st.Newton(sysm, n_load_steps=3, verbose=False)
+            else:
+                S = st.Riks(sysm, la_arc0=0.125, la_arc_span=[-1.0, 1.0], scale_exponent=None)
+            out = S.solve()
+    finally:
+        st.fsolve = real
+    nq = sysm.nq
+    if solver == "Newton":
+        h.holds("Newton: one nonlinear solve per load step, every load step solved", len(calls) == len(S.load_steps) and len(out.t) == len(S.load_steps))
+        for i, c in enumerate(calls):
+            h.holds(f"Newton: solve {i} is for load level t_{i}", len(c["fun_args"]) == 1 and float(c["fun_args"][0]) == float(S.load_steps[i]))
+            h.eq(f"Newton: returned q[{i}] is the result of the solve for t_{i}", out.q[i], c["x"][:nq])
+            h.eq(f"Newton: returned la_g[{i}] is the result of the solve for t_{i}", out.la_g[i], c["x"][nq:nq + sysm.nla_g])
+            h.eq(f"Newton: returned t[{i}] = t_{i}", out.t[i], S.load_steps[i])
+    else:
+        pts = calls[1:]         # (the first solve, in the constructor, fixes the initial arc length)
+        h.holds("Riks: initial point plus one returned point per nonlinear solve", len(out.t) == len(pts) + 1)
+        for i, c in enumerate(pts):
+            h.eq(f"Riks: returned q[{i + 1}] is the result of solve {i + 1}", out.q[i + 1], c["x"][:nq])
+            h.eq(f"Riks: returned load factor [{i + 1}] is the result of solve {i + 1}", out.t[i + 1], c["x"][-1])
+            h.eq(f"Riks: returned la_g[{i + 1}] is the result of solve {i + 1}", out.la_g[i + 1], c["x"][nq + sysm.nla_c:nq + sysm.nla_c + sysm.nla_g])
+
+
 def jacobian(h, which="rb", k=0, seed=0):
     from cardillo.solver import Newton
     sysm, body = build(h, which, seed=seed)
@@ -173,6 +290,9 @@ def equivariance(h, which="rb", seed=0):
 def cases(tier, seed):
     T = 120 if tier == "quick" else 900
     cs = []
+    cs.append(Case("riks_rows/contact", riks_rows, dict(seed=seed), timeout=T, hard=T * 4, max_paths=16))
+    for solver in ("Newton", "Riks"):
+        cs.append(Case(f"stored_points/{solver}", stored_points, dict(solver=solver, seed=seed), timeout=T, hard=T * 4, sentinel=False, max_paths=16))
     for which in ("rb", "rod_db", "rod_mixed"):
         cs.append(Case(f"rows/Newton/{which}", rows, dict(which=which, solver="Newton", seed=seed), timeout=T, sentinel=False))
         n = {"rb": 7 + 3, "rod_db": 14 + 6, "rod_mixed": 14 + 6 + 6}[which]
